@@ -73,8 +73,15 @@ func (rn *runner) modelledReqX(epName, api, user, plan, hUser, hPlan, method, ci
 		switch {
 		case strings.HasSuffix(epName, "Create"):
 			id := createID(epName, ctype, raw)
+			// what the server accepted must be usable: one valid insert, one valid search per ranking index
+			rn.followUp(user, plan, id, req.line())
 			rn.w.c.do(request{user, plan, "DELETE", "/v2/collections/" + id, "", nil})
+			// the collection is gone again: its create request is no part of the history of later creates
+			if h := rn.w.hist[key]; len(h) > 0 && h[len(h)-1] == req.line() {
+				rn.w.hist[key] = h[:len(h)-1]
+			}
 			delete(rn.w.hist, user+"/"+id)
+			delete(rn.w.rejected, user+"/"+id)
 		case strings.HasSuffix(epName, "Insert"):
 			var idl []*N
 			for _, id := range idsOf(epName, ctype, raw) {
@@ -270,6 +277,8 @@ func (rn *runner) boundarySweep() {
 	}
 	rn.placeSweep()
 	rn.straySweep()
+	rn.enumSweep()
+	rn.depthSweep()
 	// ---- query vectors of 4096 / 4097 on the 4096-dimensional indexes; stored vectors of 4095 / 4096 / 4097
 	for _, l := range []int{4095, 4096, 4097} {
 		q := Obj("query", Obj("property", Str("v"), "vectorFlat", Obj("vector", g.vec(l), "operator", Str("near"), "limit", Int(3))), "limit", Int(3))
@@ -305,6 +314,7 @@ func (rn *runner) boundarySweep() {
 		rn.modelledReq("v2Delete", "v2", "dave", "BASIC", "DELETE", "dupcol", "/points", Obj("ids", del), false, "boundary:dup-id", false)
 		rn.w.c.do(request{"dave", "BASIC", "DELETE", "/v2/collections/dupcol", "", nil})
 		delete(rn.w.hist, "dave/dupcol")
+		delete(rn.w.rejected, "dave/dupcol")
 		rn.refresh()
 	}
 	// ---- v1 vector length limit 2000 (needs v1 collections of that dimension; carol has one free slot)
@@ -320,6 +330,7 @@ func (rn *runner) boundarySweep() {
 		rn.sweepReq("v1Search", "v1", "carol", "BIG", "POST", id, "/points/search", Obj("vector", g.vec(d), "limit", Int(3)), true, "v1search.vector.2000")
 		rn.w.c.do(request{"carol", "BIG", "DELETE", "/v2/collections/" + id, "", nil})
 		delete(rn.w.hist, "carol/"+id)
+		delete(rn.w.rejected, "carol/"+id)
 		rn.refresh()
 	}
 }
